@@ -5,7 +5,7 @@ import TLX.Lemmas.Capstone2
 set_option linter.unusedSimpArgs false
 namespace TLX.Props.C01Capstone
 open TLX TLX.Cipher TLX.RecordLayer TLX.Spec.TlsSender TLX.Props.C01 TLX.Lemmas.Pipeline TLX.Spec.TlsConnection
-open TLX.Lemmas.Capstone TLX.Lemmas.Capstone2 TLX.Props.C01Pipeline TLX.Spec.TlsFraming
+open TLX.Lemmas.Capstone TLX.Lemmas.Capstone2 TLX.Props.C01Pipeline TLX.Spec.TlsFraming TLX.Spec.TlsFragmented13
 
 -- ====================================================================== the capstones from the release order alone
 /-- `tls12_connection_exact` with the reassembly conclusion as hypothesis: whatever the delivery was, if the records
@@ -372,5 +372,130 @@ theorem causal13_of_packet_order (info : Nat → Pipeline.Info) (c : Pipeline.Co
       | nil => rw [List.map_nil] at b1; exact absurd b1.symm h.neB
       | cons q1 rest =>
         exact ⟨q0, q1, rest ++ relC, by rw [hM]; rfl, a2 q0 (by simp), b2 q1 (by simp)⟩
+
+-- ====================================================================== 3. TLS 1.3 with fragmented handshake messages
+set_option linter.unusedVariables false in
+/-- `tls13_connection_exact` at full RFC 8446 §5.1 strength: the endpoints may cut their handshake message streams into
+    records anywhere (`Spec/TlsFragmented13`: `FragConform`). FALSE for the tool: `Ex2.tls13_fragmented_counterexample`. -/
+def tls13_connection_exact_statement : Prop := ∀ (H : Crypto.Prims) (P : Prims) (L : SealLaws P) (kl : List Keylog.Key)
+    (info : Nat → Pipeline.Info) (c : Pipeline.Conn) (hmeta : c.opts.metadata = false)
+    -- the connection as sent
+    (t : TranscriptF) (hch : t.ch.WellFormed) (hsh : t.sh.WellFormed) (hrc : t.rvC.length = 2) (hrs : t.rvS.length = 2)
+    (hv : t.ver.length = 2) (hcomp : t.sh.compressionMethod = 0) (hneg : Negotiated t.rvS t.sh .tls13)
+    -- suite table (C14), key log (C09), key schedule (C15), as in `genKeys_installs_rel_13`
+    (ps : CipherSuite.Params) (hres : CipherSuite.resolve (Bytes.beNat t.sh.cipherSuite) = some ps)
+    (a : Pipeline.SuiteArgs) (hargs : Pipeline.suiteArgs ps = some a)
+    (f : Keylog.Key) (fs : List Keylog.Key)
+    (hfound : Keylog.findSessionSecrets kl (Pipeline.natsOfBytes t.ch.random) = f :: fs)
+    (secrets : List KeySchedule.Secret) (hsec : Pipeline.secretsOf true (f :: fs) = some secrets)
+    (k : KeySchedule.Installed13)
+    (hgen : KeySchedule.generateKeys H .tls13 a.ks secrets t.ch.random t.sh.random = .ok (some (.tls13 k)))
+    (chk chiv cak caiv shk shiv sak saiv : Bytes)
+    (hk : k.clientHsKey = some chk ∧ k.clientHsIv = some chiv ∧ k.clientAppKey = some cak ∧ k.clientAppIv = some caiv ∧
+      k.serverHsKey = some shk ∧ k.serverHsIv = some shiv ∧ k.serverAppKey = some sak ∧ k.serverAppIv = some saiv)
+    (cls : CipherClass)
+    (hcls : classOf a.bulk .tls13
+      (Session.extGet ((t.sh.extensions.getD []).map extPair) [0x00, 0x16]).isSome a.tagLen = some cls)
+    (h1 : KeyMatOk cls chk chiv) (h2 : KeyMatOk cls cak caiv) (h3 : KeyMatOk cls shk shiv) (h4 : KeyMatOk cls sak saiv)
+    -- what follows the hellos
+    (hfc : FragConform t.cF) (hfs : FragConform t.sF)
+    (hwr : ∀ d, ∀ r ∈ t.records P L cls ⟨SDir.init chk chiv cak caiv, SDir.init shk shiv sak saiv⟩ d, WholeRecord r)
+    (hlen : costF t.cF + costF t.sF ≤ seqLimit)
+    -- the capture
+    (hdel : DeliveredInOrder info c (t.stream P L cls ⟨SDir.init chk chiv cak caiv, SDir.init shk shiv sak saiv⟩))
+    (hcausal : Causal13 (connRecs info c)),
+    ∃ frames, Pipeline.connOut H P info c kl = some (frames.map (Pipeline.addressed c.opts c)) ∧
+      Spec.reassemble frames = some (plainOfF t.cF, plainOfF t.sF) ∧
+      TimesFromCarriers info c frames 
+set_option linter.unusedVariables false in
+/-- The positive part: the full statement holds for every connection in which each protected handshake record is in
+    LOCKSTEP (`Lock`): the loop of `handle_decrypted_tls_13_handshake_record`, which restarts at offset 0 of every record's
+    plaintext and hops (type, uint24 length) pairs (`walk`), sees exactly as many type-20 bytes as Finished messages END
+    in the record. `seenFins_whole`: records of whole messages are in lockstep (then this is `tls13_connection_exact`). -/
+theorem tls13_fragmented_partial (H : Crypto.Prims) (P : Prims) (L : SealLaws P) (kl : List Keylog.Key)
+    (info : Nat → Pipeline.Info) (c : Pipeline.Conn) (hmeta : c.opts.metadata = false)
+    -- the connection as sent
+    (t : TranscriptF) (hch : t.ch.WellFormed) (hsh : t.sh.WellFormed) (hrc : t.rvC.length = 2) (hrs : t.rvS.length = 2)
+    (hv : t.ver.length = 2) (hcomp : t.sh.compressionMethod = 0) (hneg : Negotiated t.rvS t.sh .tls13)
+    -- suite table (C14), key log (C09), key schedule (C15), as in `genKeys_installs_rel_13`
+    (ps : CipherSuite.Params) (hres : CipherSuite.resolve (Bytes.beNat t.sh.cipherSuite) = some ps)
+    (a : Pipeline.SuiteArgs) (hargs : Pipeline.suiteArgs ps = some a)
+    (f : Keylog.Key) (fs : List Keylog.Key)
+    (hfound : Keylog.findSessionSecrets kl (Pipeline.natsOfBytes t.ch.random) = f :: fs)
+    (secrets : List KeySchedule.Secret) (hsec : Pipeline.secretsOf true (f :: fs) = some secrets)
+    (k : KeySchedule.Installed13)
+    (hgen : KeySchedule.generateKeys H .tls13 a.ks secrets t.ch.random t.sh.random = .ok (some (.tls13 k)))
+    (chk chiv cak caiv shk shiv sak saiv : Bytes)
+    (hk : k.clientHsKey = some chk ∧ k.clientHsIv = some chiv ∧ k.clientAppKey = some cak ∧ k.clientAppIv = some caiv ∧
+      k.serverHsKey = some shk ∧ k.serverHsIv = some shiv ∧ k.serverAppKey = some sak ∧ k.serverAppIv = some saiv)
+    (cls : CipherClass)
+    (hcls : classOf a.bulk .tls13
+      (Session.extGet ((t.sh.extensions.getD []).map extPair) [0x00, 0x16]).isSome a.tagLen = some cls)
+    (h1 : KeyMatOk cls chk chiv) (h2 : KeyMatOk cls cak caiv) (h3 : KeyMatOk cls shk shiv) (h4 : KeyMatOk cls sak saiv)
+    -- what follows the hellos
+    (hfc : FragConform t.cF) (hfs : FragConform t.sF)
+    (hlc : ∀ e ∈ t.cF, Lock e) (hls : ∀ e ∈ t.sF, Lock e)
+    (hwr : ∀ d, ∀ r ∈ t.records P L cls ⟨SDir.init chk chiv cak caiv, SDir.init shk shiv sak saiv⟩ d, WholeRecord r)
+    (hlen : costF t.cF + costF t.sF ≤ seqLimit)
+    -- the capture
+    (hdel : DeliveredInOrder info c (t.stream P L cls ⟨SDir.init chk chiv cak caiv, SDir.init shk shiv sak saiv⟩))
+    (hcausal : Causal13 (connRecs info c)) :
+    ∃ frames, Pipeline.connOut H P info c kl = some (frames.map (Pipeline.addressed c.opts c)) ∧
+      Spec.reassemble frames = some (plainOfF t.cF, plainOfF t.sF) ∧
+      TimesFromCarriers info c frames := by
+  apply export_of_dirPlain
+  rw [hmeta]
+  have hproj : ∀ d, ((connRecs info c).filter fun q => q.2 == d).map (·.1.raw)
+      = t.records P L cls ⟨SDir.init chk chiv cak caiv, SDir.init shk shiv sak saiv⟩ d := by
+    intro d
+    obtain ⟨⟨isn, hio⟩, hl⟩ := hdel d
+    exact released_dir_records info c.server c.pkts d isn _ (hwr d) hio hl
+  have hC := hproj false
+  have hS := hproj true
+  simp only [TranscriptF.records, Bool.false_eq_true, if_false, if_true] at hC hS
+  obtain ⟨⟨r0, d0⟩, ⟨r1, d1⟩, M', hM, hd0, hd1⟩ := hcausal
+  simp only at hd0 hd1
+  subst hd0 hd1
+  rw [hM] at hC hS ⊢
+  rw [filter_dir_cons_same, filter_dir_cons_other _ _ _ _ (by decide), List.map_cons] at hC
+  rw [filter_dir_cons_other _ _ _ _ (by decide), filter_dir_cons_same, List.map_cons] at hS
+  simp only [List.cons.injEq] at hC hS
+  obtain ⟨hc1, hC'⟩ := hC
+  obtain ⟨hs1, hS'⟩ := hS
+  have hr0 : r0 = ⟨t.chRecord, r0.carriers⟩ := by have h : r0.raw = t.chRecord := hc1; rw [← h]
+  have hr1 : r1 = ⟨t.shRecord, r1.carriers⟩ := by have h : r1.raw = t.shRecord := hs1; rw [← h]
+  have h0 : (Session.St.init : Session.St Dec).srvCC = false ∧ (Session.St.init : Session.St Dec).cliCC = false :=
+    ⟨rfl, rfl⟩
+  obtain ⟨g1, _, g3⟩ := server_hello_installs H P kl false Session.St.init h0 t.ch hch t.sh hsh t.rvC t.rvS hrc hrs
+    r0.carriers r1.carriers .tls13 hneg
+  obtain ⟨dd, hinst, hR⟩ := genKeys_installs_rel_13 H P kl t.sh.cipherSuite t.ch.random t.sh.random
+    ((t.sh.extensions.getD []).map extPair) hsh.2.2.2.1 ps hres a hargs f fs hfound secrets hsec k hgen
+    chk chiv cak caiv shk shiv sak saiv hk cls hcls h1 h2 h3 h4
+  rw [hcomp, hinst] at g3
+  simp only at g3
+  have h13 : cls.is13 = true := by rw [(classOf_spec _ _ _ _ cls hcls).2.2.2]; rfl
+  have ht1 : (⟨t.chRecord, r0.carriers⟩ : Session.Rec).typ = some 0x16 := record_typ 22 _ _ _
+  have ht2 : (⟨t.shRecord, r1.carriers⟩ : Session.Rec).typ = some 0x16 := record_typ 22 _ _ _
+  have htr1 := Props.C13.hello_records_silent (Pipeline.ops H P kl) Session.St.init ⟨t.chRecord, r0.carriers⟩ false ht1
+  have htr2 := Props.C13.hello_records_silent (Pipeline.ops H P kl)
+    (Session.handleRecord (Pipeline.ops H P kl) false Session.St.init ⟨t.chRecord, r0.carriers⟩ false)
+    ⟨t.shRecord, r1.carriers⟩ true ht2
+  have hready : Ready cls (KeySchedule.macSuite H a.ks.mac).outLen
+      ⟨SDir.init chk chiv cak caiv, SDir.init shk shiv sak saiv⟩
+      (Session.handleRecord (Pipeline.ops H P kl) false
+        (Session.handleRecord (Pipeline.ops H P kl) false Session.St.init ⟨t.chRecord, r0.carriers⟩ false)
+        ⟨t.shRecord, r1.carriers⟩ true) :=
+    ⟨g3.1, ⟨.tls13, g1, ⟨fun _ => h13, fun _ => rfl⟩⟩, dd, g3.2, hR⟩
+  rw [hr0, hr1]
+  have hmerge := run_mergeF H P L kl cls h13 _ t.ver hv M'
+    ⟨SDir.init chk chiv cak caiv, SDir.init shk shiv sak saiv⟩ _
+    (fun d => if d then t.sF else t.cF) hready
+    (by intro d e he; cases d; exact hlc e he; exact hls e he)
+    (by intro d; cases d; exact hC'; exact hS')
+    (by simp only [SDir.init] at hlen ⊢; simpa using hlen)
+  intro d
+  simp only [Session.run, List.foldl_cons] at hmerge ⊢
+  rw [hmerge d, htr2, htr1]
+  cases d <;> rfl
 
 end TLX.Props.C01Capstone
